@@ -141,7 +141,7 @@ pub fn run(world: &World) -> Verdict {
         })
     };
 
-    let service = SimService { world: world.clone(), log: log.clone(), suspends: false, on_handle: Some(on_handle) };
+    let service: SimService = SimService::new(world.clone(), log.clone(), false, Some(on_handle));
     let server = Server::new(lis, service);
     let mut fut = Box::pin(server.run());
     let mut cx = Context::from_waker(Waker::noop());
